@@ -34,6 +34,7 @@ def bad : Option String := some "bad-op"
 def step (line : String) : Option String :=
   let fs := if line.contains '\t' then Qx.Driver.fields line else Qx.Driver.words line
   match fs with
+  | "reset" :: "scalar" :: _ => some "ok"   -- the scalar ops are stateless; a reset only delimits a batch of cases
   | ["scalar-int", bits, sg, h] =>
     match bits.toNat?, strOfHex h with
     | some b, some s =>
